@@ -110,7 +110,8 @@ let () =
         try
           let ops = listof op in
           let y = run_history h ops in
-          String.concat ";" (List.map show_build y.sy_log)
+          (* the decidable structural guard of KEYFAITH.v (cmd_faithful + unique printed labels) on the visited snapshots *)
+          String.concat ";" (List.map show_build y.sy_log) ^ "#k=" ^ (if snaps_okb (snaps ops) then "1" else "0")
         with Failure m -> "model-error " ^ m
            | Invalid_argument m -> "model-error " ^ m in
       print_string res; print_char '\n'
